@@ -31,8 +31,9 @@ class ClauseResult:
 class SymWorld(S.World):
     symbolic = True
 
-    def __init__(self, order=None):
+    def __init__(self, order=None, unit_sorts=()):
         super().__init__(order)
+        self.unit_sorts = set(unit_sorts)      # sorts that have size ONE in this configuration (e.g. Dy = 1)
         self.results = []
         self.xp = S
         self.ld_rules = {}      # LD atom name -> (batch IVs, value expr)
@@ -43,21 +44,30 @@ class SymWorld(S.World):
         S.set_world(self)
 
     # ---- generators
+    def _d(self, dim):
+        return 1 if (isinstance(dim, str) and dim in self.unit_sorts) else dim
+
     def arr(self, name, *dims, sym=None):
-        return S.atom_array(name, *dims, sym=sym)
+        return S.atom_array(name, *[self._d(d) for d in dims], sym=sym)
 
     def pos(self, name, *dims):
         self.assumptions.add(f"{name} > 0 (precondition)")
         self.ctx.__dict__.setdefault("positive", set()).add(name)
-        return S.atom_array(name, *dims)
+        return S.atom_array(name, *[self._d(d) for d in dims])
 
     def symm(self, name, batch, D):
         """symmetric matrix atom [batch..., D, D]"""
+        D = self._d(D)
+        batch = [self._d(b) for b in batch]
+        if isinstance(D, int) and D == 1:
+            return S.atom_array(name, *batch)[..., None, None]
         nb = len([b for b in batch if not (isinstance(b, int) and b == 1)])
         return S.atom_array(name, *batch, D, D, sym=[(nb, nb + 1)])
 
     def spd(self, name, batch, D):
         """well-formed covariance/precision pair: returns dict S (cov), L (prec), ld (= ln det S)"""
+        D = self._d(D)
+        batch = [self._d(b) for b in batch]
         if isinstance(D, int) and D == 1:
             # 1x1 covariance: a positive scalar per component; precision = reciprocal, ln det = log
             s = S.atom_array(f"S{name}", *batch)
@@ -72,9 +82,11 @@ class SymWorld(S.World):
 
     def diag_spd(self, name, batch, D):
         """diagonal SPD pair given by a positive vector s: S = diag(s)"""
+        D = self._d(D)
+        batch = [self._d(b) for b in batch]
         s = S.atom_array(f"s{name}", *batch, D)
         self.assumptions.add(f"s{name} > 0 (diagonal covariance entries)")
-        eye = S.eye(S.Dim.of(D))
+        eye = S.eye(1 if (isinstance(D, int) and D == 1) else S.Dim.of(D))
         Sg = s[..., None] * eye
         L = (1.0 / s)[..., None] * eye
         ld = S.sum(S.log(s), axis=-1)
@@ -152,6 +164,8 @@ class SymWorld(S.World):
     def block_gaussian(self, tag, batch, parts):
         """arbitrary Gaussian over a direct-sum space parts=[D1, D2]: block arrays mu, S (symmetric), L (symmetric), ld.
         (no inverse relation between S and L is declared: for obligations that only need moments)"""
+        parts = [self._d(p) for p in parts]
+        batch = [self._d(b) for b in batch]
         nb = len([b for b in batch if not (isinstance(b, int) and b == 1)])
         mu = S.concatenate([S.atom_array(f"m{tag}{k}", *batch, p) for k, p in enumerate(parts)], axis=-1)
 
@@ -160,7 +174,9 @@ class SymWorld(S.World):
             for i, p in enumerate(parts):
                 row = []
                 for j, q in enumerate(parts):
-                    if i == j:
+                    if i == j and isinstance(p, int) and p == 1:
+                        row.append(S.atom_array(f"{pfx}{tag}{i}{j}", *batch, p, q))
+                    elif i == j:
                         row.append(S.atom_array(f"{pfx}{tag}{i}{j}", *batch, p, q, sym=[(nb, nb + 1)]))
                     elif i < j:
                         row.append(S.atom_array(f"{pfx}{tag}{i}{j}", *batch, p, q))
@@ -171,6 +187,8 @@ class SymWorld(S.World):
         return dict(mu=mu, S=blocks("S"), L=blocks("L"), ld=S.atom_array(f"ld{tag}", *batch))
 
     def size(self, sort):
+        if isinstance(sort, str) and sort in self.unit_sorts:
+            return 1
         return S.Dim.of(sort)
 
     def pick(self, name, src_sort=None):
